@@ -269,12 +269,15 @@ PROPS["C13"] = {
     "pkg": "c13", "level": "exploration",
     "jobs": {
         "quick": [{"name": "pods", "run": "^TestPodHistories$", "checks": 4800, "shards": 12, "steps": 32},
-                  {"name": "relist", "run": "^TestPodHistories$", "checks": 400, "shards": 16, "steps": 24, "env": {"C13_RELIST": "1"}}],
+                  {"name": "relist", "run": "^TestPodHistories$", "checks": 400, "shards": 16, "steps": 24, "env": {"C13_RELIST": "1"}},
+                  {"name": "inflight", "run": "^TestLookupInFlightDuringEvent$", "checks": 1600, "shards": 8}],
         "thorough": [{"name": "pods", "run": "^TestPodHistories$", "checks": 128000, "shards": 16, "steps": 30, "timeout": 1700},
-                     {"name": "relist", "run": "^TestPodHistories$", "checks": 12000, "shards": 16, "steps": 24, "timeout": 1700, "env": {"C13_RELIST": "1"}}],
+                     {"name": "relist", "run": "^TestPodHistories$", "checks": 12000, "shards": 16, "steps": 24, "timeout": 1700, "env": {"C13_RELIST": "1"}},
+                     {"name": "inflight", "run": "^TestLookupInFlightDuringEvent$", "checks": 64000, "shards": 16, "timeout": 1700}],
     },
     "assumptions": [
-        "lookups are issued only at quiescent points (after the sentinel barrier), which is what 'after any history has been observed' states; the window between the informer's index update and the provider's invalidation callback is not explored",
+        "the history layers issue lookups only at quiescent points (after the sentinel barrier), which is what 'after any history has been observed' states; the window between the informer's index update and the provider's invalidation callback is not explored",
+        "the inflight layer relies on the provider logging at debug level, with the address in the field 'ip', between reading the pod from the informer and memoising the answer (that is where the harness parks a lookup); if that log call goes away the job fails with the harness signature C13:harness-lookup-not-parked rather than passing vacuously",
         "the barrier relies on client-go delivering handler notifications in event order and on absent results not being memoised by the provider",
         "no regex in the pool matches the empty string as a whole; distinct IPs among existing pods",
         "a relist (the watch answers 'resource version too old', the informer lists again and finds pods gone) costs about a second of client-go's real-time back-off, so it is generated in its own job, once per history",
